@@ -662,6 +662,10 @@ func (s *TreeShapeListener) EnterField(ctx *parser.FieldContext) {
 	if has {
 		logrus.Debugf("%s) %s.%s defined multiple times, merging field definitions",
 			s.sc.filename, s.currentTypePath.Get(), fieldName)
+		// the declaration being read states the type in full: the size constraints and the optionality of the
+		// earlier one must not be added to it
+		type1.Constraint = nil
+		type1.Opt = false
 	} else {
 		type1 = &sysl.Type{}
 		type1.Type = &sysl.Type_NoType_{
